@@ -724,14 +724,15 @@ func (c *control) dirEval(colon, at bool, params []any) {
 
 func (c *control) dirProc(colon, at bool, params []any) {
 	var ctrl []byte
-	if c.argPos < len(c.args) {
-		ss, ok := c.args[c.argPos].(slip.String)
-		if !ok {
-			slip.ErrorPanic(c.scope, 0, "recursive processing directive expected a control string at %d of %q", c.pos, c.str)
-		}
-		ctrl = []byte(ss)
-		c.argPos++
+	if len(c.args) <= c.argPos || (!at && len(c.args) <= c.argPos+1) {
+		slip.ErrorPanic(c.scope, 0, "missing argument for recursive processing directive at %d of %q", c.pos, c.str)
 	}
+	ss, ok := c.args[c.argPos].(slip.String)
+	if !ok {
+		slip.ErrorPanic(c.scope, 0, "recursive processing directive expected a control string at %d of %q", c.pos, c.str)
+	}
+	ctrl = []byte(ss)
+	c.argPos++
 	c2 := control{
 		scope: c.scope,
 		str:   ctrl,
@@ -1460,10 +1461,11 @@ func (c *control) dirCond(colon, at bool, params []any) {
 	}
 	var arg slip.Object
 	if colon || at || n < 0 {
-		if c.argPos < len(c.args) {
-			arg = c.args[c.argPos]
-			c.argPos++
+		if len(c.args) <= c.argPos {
+			slip.ErrorPanic(c.scope, 0, "missing argument for conditional directive at %d of %q", c.pos, c.str)
 		}
+		arg = c.args[c.argPos]
+		c.argPos++
 	}
 	strs, def, pos := c.scanCond(c.str, c.pos)
 	switch {
